@@ -342,24 +342,54 @@ def c06_sem(R):
             return [("loads-the-argument", z3.BoolVal(locs[2] is a1.t)), ("stack-balanced", z3.BoolVal(not stack)), ("frame", z3.BoolVal(locs[0] is a0.t and locs[1] is a1.t))]
 
         verify(R, "C06.sem.VariableAccessInstruction", GW + "::GenerateWasmVisitor.v_VariableAccessInstruction", run, label=f"load.arg,{k}")
-    # return
-    for withval in (True, False):
-        def run(ctx, withval=withval):
-            f, bb = ir_c.fresh_function()
-            v = ir_c.val(bb)
-            ins = bb.AddInstruction(ir.ReturnInstruction(v if withval else None))
+    # return: the function's DECLARED result type (converted by the real _ConvertFunctionType) x the type of the returned value.  There is no
+    # conversion on `return` in the front end (`-> float { return a; }` with an int a reaches the IR as it stands), so the handler must either
+    # refuse or leave exactly the declared results on the stack.
+    import collections
+    cft = resolve(GW + "::_ConvertFunctionType")
+    RT = {"int": ir.IntegerType, "float": ir.FloatType, "void": ir.VoidType}
+    for declared, valk in itertools.product(("int", "float", "void"), ("i", "f", None)):
+        def run(ctx, declared=declared, valk=valk):
+            f = ir.Function("f", ir.FunctionType(RT[declared](), collections.OrderedDict([("p0", ir.IntegerType())])))
+            bb = f.CreateBasicBlock()
+            v = ir_c.val(bb, T(valk)) if valk else None
+            ins = bb.AddInstruction(ir.ReturnInstruction(v))
             g, vis, gctx = new_gen()
             gctx.OnEnterFunction("f")
-            gctx.SetReferenceToLocalMap({v.Reference: 1})
-            vis.v_Generic(ins, gctx)
-            x = ctx.int("x")
+            if v is not None:
+                gctx.SetReferenceToLocalMap({v.Reference: 1})
             try:
-                locs, stack, ret = run_wasm(emitted(gctx), [z3.IntVal(0), x.t], [I32, I32], results=[I32] if withval else [])
+                results = [{"i32": I32, "f32": F32}.get(getattr(x, "name", None), str(x)) for x in getpriv(cft(f.Type), "FunctionType", "__returnTypes")]
+                vis.v_Generic(ins, gctx)
+            except Exception as e:
+                return [("refused", z3.BoolVal(True), f"handler raised {type(e).__name__}: refusal is acceptable")]
+            x = ctx.int("x") if valk != "f" else ctx.real("x")
+            try:
+                locs, stack, ret = run_wasm(emitted(gctx), [z3.IntVal(0), x.t], [I32, wt(valk or "i")], results=results)
             except Invalid as e:
-                return [("well-typed", z3.BoolVal(False), str(e))]
-            return [("returns-the-value", z3.BoolVal((ret == [x.t]) if withval else (ret == []))), ("nothing-left", z3.BoolVal(not stack))]
+                return [("well-typed", z3.BoolVal(False), f"function declared -> {declared}, `return` of {'nothing' if valk is None else T(valk)}: {e}")]
+            return [("well-typed", z3.BoolVal(True)), ("returns-the-value", z3.BoolVal((ret == [x.t]) if results else (ret == []))), ("nothing-left", z3.BoolVal(not stack))]
 
-        verify(R, "C06.sem.ReturnInstruction", GW + "::GenerateWasmVisitor.v_ReturnInstruction", run, label="value" if withval else "void")
+        def replay(model, clause, declared=declared, valk=valk):
+            from .vm_c import NSLT
+            return script("""
+                import io, contextlib
+                from nsl import Compiler
+                import wasmtime
+                src = 'export function f(%s a) -> %s { %s }' % ({{pt}}, {{declared}}, 'return a;' if {{hasval}} else 'return;')
+                try:
+                    with contextlib.redirect_stdout(io.StringIO()):
+                        r = Compiler.Compiler().Compile(src, {'wasm': True})
+                    out = io.BytesIO(); r.WasmModule.WriteTo(out)
+                except BaseException as e:
+                    print(src, 'refused:', type(e).__name__, e); raise SystemExit
+                try:
+                    wasmtime.Module.validate(wasmtime.Engine(), out.getvalue()); print(src, 'valid')
+                except Exception as e:
+                    print(src); print('wasmtime rejects the emitted module:', str(e)[:200]); print('REPLAY-CONFIRMED')
+                """, pt=NSLT[valk or "i"], declared=declared, hasval=valk is not None)
+
+        verify(R, "C06.sem.ReturnInstruction", GW + "::GenerateWasmVisitor.v_ReturnInstruction", run, replay, label=f"declared-{declared},value-{ {'i': 'int', 'f': 'float', None: 'none'}[valk] }")
     # constants
     gc = resolve(GW + "::_GenerateConstant")
     c = ir.ConstantValue(ir.IntegerType(), -65)
